@@ -71,6 +71,9 @@ pub enum Op {
   Delete(Vec<String>),
   Commit,
   Compact,
+  /// the process holding the index goes away and a new one opens the same directory (server
+  /// restart, handle close + open); abstract state unchanged
+  Restart,
   Search(SearchOp),
 }
 
@@ -83,6 +86,7 @@ impl Op {
       Op::Delete(_) => "delete",
       Op::Commit => "commit",
       Op::Compact => "compact",
+      Op::Restart => "restart",
       Op::Search(_) => "search",
     }
   }
@@ -255,6 +259,7 @@ pub fn gen_history(r: &mut StdRng, scn: usize) -> Vec<Op> {
       }
       49..=66 => Op::Commit,
       67..=70 => Op::Compact,
+      71..=74 => Op::Restart,
       _ => {
         // a search; sometimes the next page of an earlier search of this history
         let page = !searches.is_empty() && chance(r, 3, 10);
@@ -328,6 +333,7 @@ pub fn history_from_case(case: &Value, r: &mut StdRng) -> Vec<Op> {
       "update" => ops.push(Op::Update(docs)),
       "delete" => ops.push(Op::Delete(ids)),
       "compact" => ops.push(Op::Compact),
+      "restart" => ops.push(Op::Restart),
       "commit" => {
         ops.push(Op::Commit);
         ops.push(std_search("common", "flags"));
@@ -530,6 +536,13 @@ fn run_lib(ops: &[Op], dir: &Path, per_doc_commit: bool) -> Result<Vec<Obs>> {
         let res = i.compact();
         Obs::status(res.is_ok(), res.err().map(|e| clean(&format!("{e:#}"), dir)).unwrap_or_default())
       }
+      Op::Restart => {
+        if idx.is_some() {
+          drop(idx.take());
+          idx = Some(Index::open(frontend_options(&root, false))?);
+        }
+        Obs::status(true, String::new())
+      }
       Op::Search(s) => {
         let i = idx.as_ref().ok_or_else(|| anyhow!("no index"))?;
         let cursor = cursor_for(s, &cursors);
@@ -685,6 +698,13 @@ fn run_ffi(ops: &[Op], dir: &Path) -> Result<Vec<Obs>> {
           }
         }
         Obs::status(st >= 0, if st < 0 { format!("searchlite_add_json returned {st}") } else { String::new() })
+      }
+      Op::Restart => {
+        if h.is_some() {
+          drop(h.take());
+          h = Some(Handle::open(&root)?);
+        }
+        Obs::status(true, String::new())
       }
       Op::Delete(_) | Op::Compact => {
         // not expressible through the C API: library call on the same directory between a
@@ -864,6 +884,8 @@ fn run_cli(ops: &[Op], dir: &Path, bin: &Path) -> Result<Vec<Obs>> {
         let (ok, _, se) = cli.run(&["compact".into(), idx.clone()])?;
         Obs::status(ok, if ok { String::new() } else { clean(&se, dir) })
       }
+      // every CLI command is its own process already
+      Op::Restart => Obs::status(true, String::new()),
       Op::Search(s) => {
         let cursor = cursor_for(s, &cursors);
         let res = if s.cli_form == "flags" {
@@ -954,44 +976,45 @@ fn free_port() -> Result<u16> {
 fn run_http(ops: &[Op], dir: &Path) -> Result<Vec<Obs>> {
   let root = dir.join("idx");
   let rt = tokio::runtime::Builder::new_multi_thread().worker_threads(2).enable_all().build()?;
-  let mut port = 0u16;
-  let mut up = false;
-  for _attempt in 0..5 {
-    port = free_port()?;
-    let args = searchlite_http::ServeArgs::parse_from([
-      "searchlite-http".to_string(),
-      "--index".to_string(),
-      root.to_string_lossy().to_string(),
-      "--bind".to_string(),
-      format!("127.0.0.1:{port}"),
-    ]);
-    let task = rt.spawn(async move { searchlite_http::run(args).await });
-    for _ in 0..400 {
-      if task.is_finished() {
-        break;
+  let start = |rt: &tokio::runtime::Runtime| -> Result<(u16, tokio::task::JoinHandle<anyhow::Result<()>>)> {
+    for _attempt in 0..5 {
+      let port = free_port()?;
+      let args = searchlite_http::ServeArgs::parse_from([
+        "searchlite-http".to_string(),
+        "--index".to_string(),
+        root.to_string_lossy().to_string(),
+        "--bind".to_string(),
+        format!("127.0.0.1:{port}"),
+      ]);
+      let task = rt.spawn(async move { searchlite_http::run(args).await });
+      let mut up = false;
+      for _ in 0..400 {
+        if task.is_finished() {
+          break;
+        }
+        if let Ok((200, _)) = http_call(port, "GET", "/healthz", "application/json", b"") {
+          up = true;
+          break;
+        }
+        std::thread::sleep(std::time::Duration::from_millis(10));
       }
-      if let Ok((200, _)) = http_call(port, "GET", "/healthz", "application/json", b"") {
-        up = true;
-        break;
+      if up {
+        // a bind failure surfaces within milliseconds; if our task ended, the answer came from a
+        // foreign server on that port
+        std::thread::sleep(std::time::Duration::from_millis(50));
+        if !task.is_finished() {
+          return Ok((port, task));
+        }
       }
-      std::thread::sleep(std::time::Duration::from_millis(10));
+      task.abort();
     }
-    if up {
-      // a bind failure surfaces within milliseconds; if our task ended, the answer came from a
-      // foreign server on that port
-      std::thread::sleep(std::time::Duration::from_millis(50));
-      if !task.is_finished() {
-        break;
-      }
-      up = false;
-    }
-    task.abort();
-  }
-  if !up {
     bail!("the HTTP service did not come up");
-  }
+  };
+  let (p0, t0) = start(&rt)?;
+  let port = std::cell::Cell::new(p0);
+  let mut server = t0;
   let post = |path: &str, ctype: &str, body: &[u8]| -> Result<Result<Value, String>> {
-    let (st, b) = http_call(port, "POST", path, ctype, body)?;
+    let (st, b) = http_call(port.get(), "POST", path, ctype, body)?;
     let v: Value = serde_json::from_slice(&b).unwrap_or(Value::Null);
     if st == 200 {
       Ok(Ok(v))
@@ -1020,6 +1043,15 @@ fn run_http(ops: &[Op], dir: &Path) -> Result<Vec<Obs>> {
       Op::Delete(ids) => simple(post("/delete", "application/json", json!({"ids": ids}).to_string().as_bytes())?),
       Op::Commit => simple(post("/commit", "application/json", b"")?),
       Op::Compact => simple(post("/compact", "application/json", b"")?),
+      Op::Restart => {
+        // stop the service (its listener closes with the task) and start a new one on the same directory
+        server.abort();
+        let _ = rt.block_on(async { (&mut server).await });
+        let (p, t) = start(&rt)?;
+        port.set(p);
+        server = t;
+        Obs::status(true, String::new())
+      }
       Op::Search(s) => {
         let cursor = cursor_for(s, &cursors);
         match post("/search", "application/json", with_cursor(&s.req, &cursor).to_string().as_bytes())? {
